@@ -618,6 +618,36 @@ def apply_model(interp, st, t, b, record):
             st.z.kill(lt)
             st.z.set_range(lt, 0, LEN_MAX)
         return
+    mput = re.fullmatch(r"bytes::(?:buf::)?BufMut::(put_\w+|put)", nm)
+    if mput:
+        # appending to a growable buffer: len += k (fixed-width puts), += len(src) (put_slice / put), += n (put_bytes)
+        from .bytecount import PUT_FIXED
+        meth = mput.group(1)
+        r = referent(interp, st, args[0])
+        if r:
+            lt = _len_term(r)
+            lo, hi = st.z.lo(lt), st.z.hi(lt)
+            if meth in PUT_FIXED:
+                alo = ahi = PUT_FIXED[meth]
+            elif meth in ("put_slice", "put") and len(args) > 1:
+                a = referent(interp, st, args[1])
+                alo, ahi = (max(st.z.lo(_len_term(a)), 0), st.z.hi(_len_term(a))) if a else (0, INF)
+                if alo == -INF:
+                    alo = 0
+            elif meth == "put_bytes" and len(args) > 2:
+                alo, ahi = interp.range_of(st, args[2])
+                alo = max(alo, 0) if alo != -INF else 0
+            else:
+                alo, ahi = 0, INF
+            if alo == ahi and lt in st.z.terms():
+                st.z.shift(lt, alo)
+            elif lt in st.z.terms():
+                st.z.shift_range(lt, alo, ahi)       # keeps `len >= pos recorded earlier`
+                st.z.set_range(lt, 0, LEN_MAX)
+            else:
+                st.z.set_range(lt, alo, LEN_MAX)
+        fresh_dest()
+        return
     if re.fullmatch(r"std::vec::Vec::<T(, A)?>::extend_from_slice", nm):
         r, a = referent(interp, st, args[0]), referent(interp, st, args[1])
         if r:
@@ -903,7 +933,26 @@ def _local_call(interp, st, t, b, record, key):
             tgt = st.refs.get(l, "L%d.*" % l)
             if re.match(r"&mut \[", ty):
                 continue
+            # a byte buffer handed to a workspace encoder grows by at most that encoder's own byte bound
+            grow = None
+            bc = prog.__dict__.get("_bytecount")
+            if bc is not None and re.match(r"&mut (std::vec::Vec<u8(, std::alloc::Global)?>|bytes::BytesMut|[A-Z]\w*)$", ty):
+                old_lo, old_hi = st.z.lo(_len_term(tgt)), st.z.hi(_len_term(tgt))
+                g = bc.bound(key, args.index(a) + 1)
+                if g != INF and old_hi != INF:
+                    grow = (max(old_lo, 0) if old_lo != -INF else 0, old_hi + g)
+            lt_keep = None
+            if bc is not None and re.match(r"&mut (std::vec::Vec<u8(, std::alloc::Global)?>|bytes::BytesMut|[A-Z]\w*)$", ty) and _len_term(tgt) in st.z.terms() and g != INF:
+                # an encoder with a byte bound only appends (the byte-count analysis rejects every other buffer method)
+                z2 = st.z.copy()
+                z2.shift_range(_len_term(tgt), 0, g)
+                lt_keep = {k: v for k, v in z2.e.items() if _len_term(tgt) in k}
             havoc_place(interp, st, tgt)
+            if lt_keep:
+                for (a_, b_), w_ in lt_keep.items():
+                    st.z.add(a_, b_, w_)
+            if grow:
+                st.z.set_range(_len_term(tgt), grow[0], grow[1])
             if "BgpReader<" in ty:
                 st.z.add(tgt + ".f1", "len(%s.f0)" % tgt, 0)
                 st.z.set_range(tgt + ".f1", 0, LEN_MAX)
